@@ -86,7 +86,6 @@ RefLines(lines) ==
       rl == ReqLine(lines[1])
       fs == [k \in 1..(Len(lines) - 1) |-> Field(lines[k+1])]
       anyFree == bareLF \/ rl.free \/ (\E k \in 1..Len(fs) : fs[k].cls = "free")
-                 \/ (lines[1] # <<>> /\ lines[1][Len(lines[1])] = CR)
       fieldReject == \E k \in 1..Len(fs) : fs[k].cls = "reject"
       errs == (IF rl.ok THEN {} ELSE rl.errs) \cup (IF fieldReject THEN {"MalformedHeader"} ELSE {})
   IN IF anyFree THEN [class |-> "free", errs |-> errs \cup {"MalformedRequestLine", "MalformedPath", "UnsupportedProtocol", "MalformedHeader"}]
